@@ -15,7 +15,7 @@ TITLE = 'df_slice keeps exactly the rows in the interval; stitching switches at 
 STATEMENT = ('df_slice(ts, lb, ub, openclose) = the rows with lb </<= t and t </<= ub per the two brackets (time-of-day bounds compare '
              'the time of day, start > end wraps); stitching takes (ub[i-1], ub[i]] from series i (column j from series i+j), each '
              'timestamp once; df_unslice then stitching again reproduces the frame')
-LEAN_FILES = ['Basic', 'TSBasic', 'Slice', 'SliceDriver', 'DfSliceLemmas', 'DfSliceNaLemmas', 'DfSliceBcastLemmas', 'DfSliceFrameLemmas', 'BitempLemmas', 'C13']
+LEAN_FILES = ['Basic', 'TSBasic', 'Slice', 'SliceDriver', 'DfSliceLemmas', 'DfSliceNaLemmas', 'DfSliceBcastLemmas', 'DfSliceFrameLemmas', 'DfSliceOpenLemmas', 'BitempLemmas', 'C13']
 RULE = ('distinct protocol lines (a single slice, a stitching call or an unslice round trip) on which the implementation returned '
         'a non-empty series / frame')
 TRUSTED = ['correspondence harness (pv.engine, pv.proto) and generators of pv.props.c13',
@@ -31,7 +31,8 @@ ASSUMPTIONS = ['pandas: boolean-mask selection keeps the rows whose mask is True
                'declared, not generated (review t4): stamps with nanoseconds (`index.time` drops them: 06:00:00.000000001 passes `<= 06:00`; the model counts microseconds); an empty '
                'member spelled `pd.Series([], dtype=float)` (RangeIndex; probed: stitches like the DatetimeIndex-empty one that IS generated); a bound list that is neither non-decreasing '
                'nor non-increasing (df_unslice raises ValueError through `_is_non_decreasing` since e2719c8, the model reverses - outside the quantifier "increasing or decreasing"). '
-               'ONE series with ONE bound is generated (stitch-*, roundtrip-* with m = 1) and proved (stitch_single_eq / _iff)']
+               'ONE series with ONE bound is generated (stitch-*, roundtrip-* with m = 1) and proved (stitch_single_eq / _iff)',
+               'bound lists with an UNBOUNDED end (round k4): a None as the last upper / first lower bound is modelled (directionO / normaliseO / stitchO / unsliceO) and generated (stitch-*+open-end, roundtrip-open-end*); an INNER None raises TypeError in code and model; [None, d] (two bounds, does not spell a direction) and None beside times of day are not generated. Theorem unslice_restitch_open covers the ub-only spelling with the None last; the other open spellings are sampled and #guard-evaluated']
 
 D0 = datetime.datetime(2020, 1, 1)
 H = datetime.timedelta(hours=1)
